@@ -39,6 +39,7 @@ ASSUMPTIONS = ["fakestim stands for stim on symbolic paths (twin: real stim)", "
 REQUIRED_REACH = ['C14.strip', 'C14.range', 'C14.sum', 'C14.assignment', 'C14.idle_channel', 'C14.idle_structure']
 EXHAUSTIVE = {'quick': False, 'thorough': False}
 JOB_OPTS = {'quick': dict(max_paths=4000, max_seconds=600, twin_every=3), 'thorough': dict(max_paths=4000, max_seconds=2000, twin_every=4)}
+TRUNCATION_OK = {'quick': 4, 'thorough': 20}   # sampled tier: this many random jobs may exhaust their path/time budget (listed as truncated in the evidence)
 
 ALPHA = [['G', 'Reset', [0]], ['G', 'Hadamard', [0]], ['G', 'Hadamard', [2]], ['G', 'Identity', [1]], ['G', 'CPhase', [0, 1]], ['G', 'CPhase', [1, 2]], ['M', 0, 'a'], ['M', 1, 'a'], ['M', 2, 'b'],
          ['G', 'Rx180', [0]], ['G', 'Rx180', [2]], ['G', 'Rx90', [1]], ['G', 'Ry90', [1]], ['G', 'Rym90', [1]], ['B', [0, 1, 2]], ['B', [0, 1]], ['W', 0, 'ALL'], ['SHIFT', [0, 1, 2], 0, 1]]
